@@ -37,7 +37,7 @@ def _kernel(f, kind):
         KERNEL_CALLS.append(f.__qualname__)
         CTX.numba += 1
         try:
-            return f(*a, **k)
+            return f(*[symnp.fake_scalar_type(x) for x in a], **k)
         finally:
             CTX.numba -= 1
     w.__wrapped_kernel__ = f
